@@ -138,6 +138,13 @@ func genMgmt(r *rand.Rand, tg *tagger, m *pmodel) (*mgmtOp, func()) {
 		for _, nm := range names {
 			delete(st, nm)
 		}
+		if r.Intn(3) == 0 {
+			// a list that names some rules more than once removes what it names, nothing else
+			for i, n := 0, 1+r.Intn(3); i < n; i++ {
+				names = append(names, names[r.Intn(len(names))])
+			}
+			r.Shuffle(len(names), func(i, j int) { names[i], names[j] = names[j], names[i] })
+		}
 		return &mgmtOp{Kind: "remove", Names: names}, func() { m.st = st }
 	case 7: // clear
 		return &mgmtOp{Kind: "clear"}, func() { m.st, m.cleared = verState{}, true }
